@@ -114,6 +114,7 @@ fn run_variant_plain<T: Sc, F: Factory<T>>(sc: &Scenario, parallel: bool, sched:
     ctl.set_overlap(sched.overlap && parallel);
     let mut r = Runner::<T, F>::start(&s2, ctl.clone());
     r.tap = tap;
+    r.skip_conversions = !parallel;
     r.run_ops(&sc.ops);
     ctl.set_overlap(false);
     Exec::uninstall();
@@ -459,9 +460,10 @@ fn exec_t<T: Sc, F: Factory<T>>(sc: &Scenario) -> RunReport {
     // explicit conversions: state before == state after
     for st in &a.steps {
         if let Extra::Converted { before } = &st.extra {
-            rep.probe("into_sequential_checked");
+            let name = op_name(&sc.ops[st.op]);
+            rep.probe(if name == "IntoParallel" { "into_parallel_checked" } else { "into_sequential_checked" });
             if Some(before) != st.snap.as_ref() {
-                rep.violate(sc, "CONVERSION_CHANGED_STATE", "IntoSequential", format!("op {}: into_sequential changed the reported state", st.op));
+                rep.violate(sc, "CONVERSION_CHANGED_STATE", name, format!("op {}: {} changed the reported state", st.op, name));
             }
         }
     }
